@@ -805,22 +805,28 @@ impl Ctxt for Wide {
     fn open_disabled<Q: Props>(&self, props: Q) -> Self::Frame {
         (self.0.open_disabled(props), PAD)
     }
+    // `enter` and `exit` are NOT interchangeable for this context (unlike `ThreadLocalCtxt`, whose two are the same
+    // swap): the frame records whether it is entered, and every call checks that it is the one that is due
     fn enter(&self, frame: &mut Self::Frame) {
-        assert_eq!(frame.1, PAD);
+        assert_eq!(frame.1, PAD, "enter on a frame that is already entered (or corrupt)");
+        frame.1[1] = ENTERED;
         self.0.enter(&mut frame.0)
     }
     fn with_current<R, F: FnOnce(&Self::Current) -> R>(&self, with: F) -> R {
         self.0.with_current(with)
     }
     fn exit(&self, frame: &mut Self::Frame) {
-        assert_eq!(frame.1, PAD);
+        assert_eq!(frame.1, [PAD[0], ENTERED, PAD[2], PAD[3]], "exit on a frame that is not entered");
+        frame.1[1] = PAD[1];
         self.0.exit(&mut frame.0)
     }
     fn close(&self, frame: Self::Frame) {
-        assert_eq!(frame.1, PAD);
+        assert_eq!(frame.1, PAD, "close on a frame that is still entered");
         self.0.close(frame.0)
     }
 }
+
+const ENTERED: usize = 0xE17E;
 
 /// A user `Ctxt` that implements only the REQUIRED methods (each delegating to the real `ThreadLocalCtxt`): `open_push`
 /// and `open_disabled` are the trait defaults of core/src/ctxt.rs:39-52.
@@ -871,9 +877,9 @@ fn leak<T>(v: T) -> &'static T {
 }
 
 /// the wrapper / variant names a case line may carry
-pub const VARIANTS: [&str; 16] = [
+pub const VARIANTS: [&str; 17] = [
     "concrete", "erased", "boxed", "option", "assert", "assertdyn", "ref", "box", "arc", "boxdyn", "slot", "assertarc", "tp", "defpush",
-    "defpushdyn", "optnone",
+    "defpushdyn", "optnone", "assertwide",
 ];
 
 fn has_span_id(ps: &[P]) -> bool {
@@ -915,6 +921,11 @@ fn run_c03(line: &str) -> String {
                 prog,
             ),
             "assertdyn" => run_with::<Dyn>(base.iter().map(|c| Arc::new(emit::runtime::AssertInternal(*c)) as Dyn).collect(), prog),
+            // … around a context whose `enter` and `exit` are not interchangeable
+            "assertwide" => run_with::<&'static emit::runtime::AssertInternal<Wide>>(
+                base.iter().map(|c| leak(emit::runtime::AssertInternal(Wide(*c)))).collect(),
+                prog,
+            ),
             "assertarc" => run_with::<Arc<emit::runtime::AssertInternal<Arc<ThreadLocalCtxt>>>>(
                 base.iter().map(|c| Arc::new(emit::runtime::AssertInternal(Arc::new(*c)))).collect(),
                 prog,
